@@ -48,5 +48,15 @@ func init() {
 			Old: "func convertStatusCodeToError(code p2p_pb.StatusCode) error {\n\tswitch code {\n\tcase p2p_pb.StatusCode_OK:\n\t\treturn nil\n\tcase p2p_pb.StatusCode_NOT_FOUND:\n\t\treturn header.ErrNotFound\n\tdefault:\n\t\treturn fmt.Errorf(\"unknown status code %d\", code)\n\t}\n}", New: "var statusCodeErrors = map[p2p_pb.StatusCode]error{\n\tp2p_pb.StatusCode_OK:        nil,\n\tp2p_pb.StatusCode_NOT_FOUND: header.ErrNotFound,\n}\n\nfunc convertStatusCodeToError(code p2p_pb.StatusCode) error {\n\terr, known := statusCodeErrors[code]\n\tif !known {\n\t\treturn fmt.Errorf(\"unknown status code %d\", code)\n\t}\n\treturn err\n}"},
 		Variant{Prop: "C13", Name: "status-table-second-nil-entry", File: "p2p/helpers.go", Expect: "C13.b",
 			Old: "func convertStatusCodeToError(code p2p_pb.StatusCode) error {\n\tswitch code {\n\tcase p2p_pb.StatusCode_OK:\n\t\treturn nil\n\tcase p2p_pb.StatusCode_NOT_FOUND:\n\t\treturn header.ErrNotFound\n\tdefault:\n\t\treturn fmt.Errorf(\"unknown status code %d\", code)\n\t}\n}", New: "var statusCodeErrors = map[p2p_pb.StatusCode]error{\n\tp2p_pb.StatusCode_OK:        nil,\n\tp2p_pb.StatusCode_NOT_FOUND: header.ErrNotFound,\n\tp2p_pb.StatusCode_INVALID:   nil,\n}\n\nfunc convertStatusCodeToError(code p2p_pb.StatusCode) error {\n\terr, known := statusCodeErrors[code]\n\tif !known {\n\t\treturn fmt.Errorf(\"unknown status code %d\", code)\n\t}\n\treturn err\n}"},
+			// the ways out of performRequest merged in front of one return (benign F4-6) and two broken twins
+		Variant{Prop: "C13", Name: "benign-collecting-loop-single-return", File: ex,
+			Old: "\tvar lastErr error\n\tfor range trustedPeers {\n\t\tselect {\n\t\tcase res := <-resultCh:\n\t\t\tif res.err == nil {\n\t\t\t\treturn res.headers, nil\n\t\t\t}\n\t\t\tlastErr = res.err\n", New: "\tvar (\n\t\theaders []H\n\t\tlastErr error\n\t)\ncollect:\n\tfor range trustedPeers {\n\t\tselect {\n\t\tcase res := <-resultCh:\n\t\t\tif res.err == nil {\n\t\t\t\theaders, lastErr = res.headers, nil\n\t\t\t\tbreak collect\n\t\t\t}\n\t\t\tlastErr = res.err\n",
+			More: []Edit{{File: ex, Old: "\t\t\treturn nil, ex.ctx.Err()\n\t\t}\n\t}\n\treturn nil, lastErr\n}", New: "\t\t\treturn nil, ex.ctx.Err()\n\t\t}\n\t}\n\treturn headers, lastErr\n}"}}},
+		Variant{Prop: "C13", Name: "single-return-first-failure-ends-the-request", File: ex, Expect: "C13.d",
+			Old: "\tvar lastErr error\n\tfor range trustedPeers {\n\t\tselect {\n\t\tcase res := <-resultCh:\n\t\t\tif res.err == nil {\n\t\t\t\treturn res.headers, nil\n\t\t\t}\n\t\t\tlastErr = res.err\n", New: "\tvar (\n\t\theaders []H\n\t\tlastErr error\n\t)\ncollect:\n\tfor range trustedPeers {\n\t\tselect {\n\t\tcase res := <-resultCh:\n\t\t\tif res.err == nil {\n\t\t\t\theaders, lastErr = res.headers, nil\n\t\t\t\tbreak collect\n\t\t\t}\n\t\t\tlastErr = res.err\n\t\t\tbreak collect\n",
+			More: []Edit{{File: ex, Old: "\t\t\treturn nil, ex.ctx.Err()\n\t\t}\n\t}\n\treturn nil, lastErr\n}", New: "\t\t\treturn nil, ex.ctx.Err()\n\t\t}\n\t}\n\treturn headers, lastErr\n}"}}},
+		Variant{Prop: "C13", Name: "single-return-success-returns-no-headers", File: ex, Expect: "C13.d",
+			Old: "\tvar lastErr error\n\tfor range trustedPeers {\n\t\tselect {\n\t\tcase res := <-resultCh:\n\t\t\tif res.err == nil {\n\t\t\t\treturn res.headers, nil\n\t\t\t}\n\t\t\tlastErr = res.err\n", New: "\tvar (\n\t\theaders []H\n\t\tlastErr error\n\t)\ncollect:\n\tfor range trustedPeers {\n\t\tselect {\n\t\tcase res := <-resultCh:\n\t\t\theaders, lastErr = res.headers, res.err\n\t\t\tif res.err != nil {\n\t\t\t\tcontinue\n\t\t\t}\n\t\t\tlastErr = nil\n\t\t\theaders = nil\n\t\t\tbreak collect\n",
+			More: []Edit{{File: ex, Old: "\t\t\treturn nil, ex.ctx.Err()\n\t\t}\n\t}\n\treturn nil, lastErr\n}", New: "\t\t\treturn nil, ex.ctx.Err()\n\t\t}\n\t}\n\treturn headers, lastErr\n}"}}},
 	)
 }
